@@ -26,6 +26,30 @@ claimed["C02"]=dict(
    text="Per-decoder totality proofs (no panic: index/slice/nil/div/make/type-assert obligations; termination: decreases on every loop) for arbitrary input bytes, for the decoders under contract so far: parser (all methods), header.Read, glyf.decodeLoca, glyf.Decode, decodeGlyph, decodeGlyphComposite, removePadding, SimpleGlyph.Decode (lazy decoder on whatever decodeGlyph accepts).",
    note="Only the listed decoders; sfnt.Read, cff, cmap, gtab, name, post, kern readers are not yet under contract. Allocation is bounded per make() (<= 2^40 elements, assumption A-MEM) but proportionality to input size and running time are not expressible.",
    ref="DESIGN.md section 5 (C02)")
+claimed["C05"]=dict(
+   text="Three interpreter kernels proved against the Type 2 specification: getSubr implements the size-dependent subroutine bias (107 / 1131 / 32768 at the thresholds 1240 / 33900 of TN 5177) and rejects exactly the out-of-range indices; roll is the cyclic shift of the top stack elements for every shift count including negative and oversized ones. The operator switch of decodeCharString (path, flex, hint, arithmetic, storage operators) is NOT decided: a contract for it would be a second interpreter, which is model-based testing, a different family.",
+   note="Only getSubr and roll; floats are uninterpreted (roll moves them, never computes with them). Mutations inside decodeCharString are invisible to this check.",
+   ref="DESIGN.md section 5 (C05)")
+claimed["C06"]=dict(
+   text="Leaf rules of lookup application proved against the OpenType text: keepFunc.Keep returns false exactly for base/ligature/mark glyphs excluded by the lookup flags, with IgnoreMarks superseding the mark filtering set superseding the mark attachment type; applyAt returns the first non-negative subtable result; Gpos2_2.apply continues at the second glyph iff the pair has no second value record. Everything else in the property (ligature component consumption, contextual matching, nested actions, mark attachment, lookup order) is NOT decided: a contract for it is a reference shaper.",
+   note="Assumed Subtable.apply interface contract; GposValueRecord.Apply has an open known finding (not-implemented panic).",
+   ref="DESIGN.md section 5 (C06)")
+claimed["C07"]=dict(
+   text="Safety/termination/history kernels of shaping: Context.Apply terminates for EVERY behaviour of the subtables (the progress guard is proved, decreases len(seq)-pos), never indexes out of range, and returns with an empty action stack; applyAtRecursively terminates (lexicographic measure (64-numActions, len(stack))), keeps every stack position inside the glyph sequence and returns with an empty stack, so a reused Context starts from the same state as a fresh one; keepFunc.Keep, applyAt, Gpos2_2.apply, FindLookups never panic. Text conservation and the leaf GSUB apply methods are not yet decided.",
+   note="Assumed contract for the Subtable.apply interface method (stack invariant preserved, result in [-1,len]); implementations other than Gpos2_2 are not yet checked against it. Known finding: GposValueRecord.Apply panics for YAdvance/device tables.",
+   ref="DESIGN.md section 5 (C07)")
+claimed["C08"]=dict(
+   text="Coverage tables: encInfo/EncodeLen/Encode are proved to emit exactly the number of bytes they declare (declared size == emitted size), to choose the smaller format, to list glyphs in increasing order (format 1) and to count maximal ranges (format 2, recursive spec), refusing invalid tables by panic; coverage.Read/ReadSet are total (no panic, terminate even for ranges ending at 0xFFFF), return a valid table (indices 0..n-1 increasing with glyph id) and pass reader faults through; glyph encodeLen/append size agreement (shared with C11). classdef, GDEF, lookup-list layout, extension subtables are not yet under contract.",
+   note="Coverage tables with 65536 glyphs excluded by precondition; round trip Read(Encode(t)) == t is not yet stated as one lemma.",
+   ref="DESIGN.md section 5 (C08)")
+claimed["C09"]=dict(
+   text="Format 12: decodeFormat12 accepts exactly the well-formed subtables of the specification (ascending non-overlapping groups, glyph range, at most 65536 mapped codes: both directions of the iff are proved, so a valid table is never rejected and an invalid one never accepted) and maps every code of every group to startGlyphID + offset; cmap.Decode never panics on arbitrary bytes. Format 4/6/0, Encode, GetBest are not yet under contract.",
+   note="Glyph ids above 0xFFFF are truncated to 16 bits by the library's glyph.ID type; the postcondition states that truncation.",
+   ref="DESIGN.md section 5 (C09)")
+claimed["C15"]=dict(
+   text="kern.Read: every format-0 pair updates the kerning value by the rule the coverage bits select (minimum 0x02, override 0x08, accumulate) - proved as a fold over the pairs of each subtable (recursive spec), no panic, terminates, reader faults returned; FindLookups returns only indices below len(LookupList) and never panics. Cmap selection, GSUB/GPOS composition and the ordering/duplicate-freedom of FindLookups (sort semantics) are not yet decided.",
+   note="Assumes x/text/language Matcher.Match returns an index into its tag list; sort.Slice only permutes.",
+   ref="DESIGN.md section 5 (C15)")
 na_reasons = {}
 m={"version":1,
  "setup_cmd":"cd /verif/engine && GOFLAGS=-mod=vendor GOPROXY=off GOSUMDB=off GOTOOLCHAIN=local go build -o ../bin/gvc ./cmd/gvc",
